@@ -213,7 +213,7 @@ def main():
     elif not pr['ok']:
         # an obligation broke but no failing input in the regular stream: enlarge the search
         more = prop.gen(seed + 1, 'thorough') if tier == 'quick' else []
-        found = []
+        found = []; witnesses = []
         if more:
             ml = [o['op'] for o in more]
             mi, _ = R.run_impl(ml)
@@ -223,11 +223,28 @@ def main():
                 if v and v[0] == 'fail':
                     c = dict(op=o['op'], meta=o.get('meta', {}), impl=a, model=b, why=v[1])
                     if P.match_known(pid, c, kf) is None: found.append(c)
+        if not found and not args.replay:
+            # literal-guided search: numbers that are new in the source as sizes / lengths / depths / values at every decoder
+            import magic
+            nums = magic.new_literals(os.path.join(R.LEAN, 'CosetGen', 'Inventory.lean'), os.path.join(VERIF, 'pinned', 'CosetGen', 'Inventory.lean'))
+            if nums:
+                mops = magic.magic_ops(nums[:12])
+                ml = [o['op'] for o in mops]
+                mi, _ = R.run_impl(ml)
+                okp2, _o = R.build_pinned_driver()
+                mm = R.run_model(ml, pinned=True)[0] if okp2 else [None] * len(ml)
+                notes.append('literal-guided search: new literals %s, %d operations' % (nums[:12], len(ml)))
+                for o, a, b in zip(mops, mi, mm):
+                    if b is not None and a is not None and P.canon_nan(a) != P.canon_nan(b) and not (a.startswith('err') and b.startswith('err')):
+                        c = dict(op=o['op'], meta=o['meta'], impl=a, model=b, why='implementation differs from the proved model on an input built around a literal that is new in the source')
+                        # for a property that fixes the output, this input fails it; for a predicate on the implementation's own
+                        # behaviour it is a witness of the broken correspondence only (kept in the replay file)
+                        (found if prop.model_is_spec else witnesses).append(c)
         if found:
             path = write_replay(pid, tier, seed, pr['broken'], P.shrink_cases(prop, found[:5], use_pinned) + found[:20], 'obligation broken; failing input found by enlarged search')
             violations.append((path, ''))
         else:
-            path = write_replay(pid, tier, seed, pr['broken'], [], 'obligation no longer checks; no failing input found. lake log tail:\n' + pr['log'][-2500:])
+            path = write_replay(pid, tier, seed, pr['broken'], witnesses[:20], 'obligation no longer checks; no failing input found. lake log tail:\n' + pr['log'][-2500:])
             violations.append((path, ' no-failing-input-found'))
     elif drift:
         path = write_replay(pid, tier, seed, 'correspondence: implementation and model differ, but the property\'s own predicate failed on no explored input (the theorems no longer speak about this code)', drift[:20], 'correspondence broken')
